@@ -303,3 +303,18 @@ Proof.
          destruct (is_integer _) eqn:Ei; [reflexivity|]; exfalso; apply Hd; split; [rewrite Ec; discriminate | rewrite Hp; exact Ei]).
   destruct tg as [g|]; [|exfalso; apply Hu; exact I]. rewrite (Hr name (Some g) eq_refl). reflexivity.
 Qed.
+
+(* since /repo e572296: the constants of an INTEGER below optional(..) survive to_rust_keep_names as well *)
+Lemma to_rust_constants_keeps t ics : is_integer (no_optional t) = true -> to_rust_constants t ics = ics.
+Proof. induction t; cbn [no_optional is_integer to_rust_constants]; intros H; try discriminate; [reflexivity | apply IHt; exact H]. Qed.
+
+Lemma optional_constants_kept a t fuel :
+  a_primary a = PType t -> wf_attr CTransparent a -> (attr_depth a < fuel)%nat -> is_integer (no_optional t) = true ->
+  exists a', parse_attr CTransparent fuel (print_attr a) = Ok a' /\
+             into_asn [] a' = Some (a_tag a, t, a_consts a) /\
+             field_rust_constants t (a_consts a) = a_consts a.
+Proof.
+  intros Hp Hw Hf Hi. exists a. split; [apply reparse_attribute; assumption|]. split.
+  - unfold into_asn. rewrite Hp. destruct t; cbn [no_optional is_integer] in Hi; try discriminate; cbn [no_optional is_integer]; try rewrite Hi; reflexivity.
+  - apply to_rust_constants_keeps. exact Hi.
+Qed.
